@@ -8,6 +8,7 @@ package main
 import (
 	"fmt"
 	"runtime/debug"
+	"sync"
 	"syscall"
 	"unsafe"
 )
@@ -23,6 +24,22 @@ type GuardRegion struct {
 }
 
 func init() { debug.SetPanicOnFault(true) }
+
+var (
+	regionsMu  sync.Mutex
+	allRegions []*GuardRegion
+)
+
+// classifyFault describes a recovered fault against all live guard regions.
+func classifyFault(pv any) (string, bool) {
+	if _, ok := faultAddr(pv); !ok {
+		return "", false
+	}
+	regionsMu.Lock()
+	defer regionsMu.Unlock()
+	d, _ := describeFault(pv, allRegions...)
+	return d, true
+}
 
 // NewGuard copies data into guard memory. endFlush places the last payload byte
 // right before the trailing guard page; otherwise the payload starts page-aligned
@@ -51,6 +68,9 @@ func NewGuard(data []byte, endFlush bool) (*GuardRegion, error) {
 	}
 	copy(mem[start:], data)
 	g := &GuardRegion{all: mem}
+	regionsMu.Lock()
+	allRegions = append(allRegions, g)
+	regionsMu.Unlock()
 	g.Payload = mem[start : start+n : start+n]
 	g.lo = uintptr(unsafe.Pointer(&mem[0]))
 	g.hi = g.lo + uintptr(total)
@@ -92,6 +112,14 @@ func (g *GuardRegion) Intact() bool {
 
 func (g *GuardRegion) Free() {
 	if g.all != nil {
+		regionsMu.Lock()
+		for i, x := range allRegions {
+			if x == g {
+				allRegions = append(allRegions[:i], allRegions[i+1:]...)
+				break
+			}
+		}
+		regionsMu.Unlock()
 		syscall.Munmap(g.all)
 		g.all = nil
 	}
@@ -133,4 +161,12 @@ func describeFault(pv any, regions ...*GuardRegion) (string, bool) {
 		}
 	}
 	return fmt.Sprintf("memory fault at %#x outside the monitored regions", a), false
+}
+
+// Words reinterprets the payload as 64-bit words (payload length must be a multiple of 8).
+func (g *GuardRegion) Words() []uint64 {
+	if len(g.Payload) == 0 {
+		return nil
+	}
+	return unsafe.Slice((*uint64)(unsafe.Pointer(&g.Payload[0])), len(g.Payload)/8)
 }
